@@ -712,12 +712,28 @@ func (r *aRun) oracleC06(v *aView) {
 			tupleDir[t] = dir
 		}
 	}
-	// chunks found at start-up are reattached and delivered without new traffic for their key set: after the fault-free
-	// tail nothing may be left on disk
-	if !r.s.FinalStop && !r.finalDeadlineHit && len(r.stops) > 0 {
-		for p := range r.stops[len(r.stops)-1].Files {
-			if strings.HasSuffix(p, ".ff") {
-				r.note("C06", "queue-not-reattached", "queue-not-reattached", "queue file %s was still on disk after the final healthy phase: its queue was not reattached to a pipeline at start-up", p)
+	// chunks found at start-up are reattached and delivered without new traffic for their key set: every queue file the last
+	// generation found when it started must have been transmitted again during that generation's healthy phase
+	if !r.s.FinalStop && !r.finalDeadlineHit && len(r.stops) > 1 {
+		prev := r.stops[len(r.stops)-2]
+		restartAt := prev.At + prev.Took
+		for p, data := range prev.Files {
+			if !strings.HasSuffix(p, ".ff") {
+				continue
+			}
+			m, err := decodeChunkFile(data)
+			if err != nil {
+				continue
+			}
+			out.Obligations++
+			again := false
+			for _, sm := range r.srv.msgs {
+				if sm.ID == m.Option.Chunk && sm.Tag == m.Tag && sm.T >= restartAt {
+					again = true
+				}
+			}
+			if !again {
+				r.note("C06", "queue-not-reattached", "queue-not-reattached", "queue file %s was on disk when the last generation started but was never transmitted by it although the upstream was healthy: its queue was not reattached to a pipeline at start-up", p)
 				break
 			}
 		}
